@@ -110,6 +110,9 @@ type CertSpec struct {
 	SignKey *ecdsa.PrivateKey
 	// DummyExt adds an unrelated non-critical extension (keeps the extension count when there is no SGX extension).
 	DummyExt bool
+	// SgxCritical marks the SGX extension critical; SKI overrides the subject key identifier (default: derived from Pub).
+	SgxCritical bool
+	SKI         []byte
 }
 
 // Issue creates the certificate and returns it parsed, plus DER.
@@ -124,13 +127,16 @@ func Issue(s CertSpec) (*x509.Certificate, []byte) {
 		CRLDistributionPoints: s.CRLDP,
 		SubjectKeyId:          ski(s.Pub),
 	}
+	if s.SKI != nil {
+		tmpl.SubjectKeyId = s.SKI
+	}
 	if s.IsCA {
 		tmpl.KeyUsage = x509.KeyUsageCertSign | x509.KeyUsageCRLSign
 	} else {
 		tmpl.KeyUsage = x509.KeyUsageDigitalSignature | x509.KeyUsageContentCommitment
 	}
 	if s.SgxExt != nil {
-		tmpl.ExtraExtensions = []pkix.Extension{{Id: asn1.ObjectIdentifier(OidSgx), Value: s.SgxExt}}
+		tmpl.ExtraExtensions = []pkix.Extension{{Id: asn1.ObjectIdentifier(OidSgx), Critical: s.SgxCritical, Value: s.SgxExt}}
 	}
 	if s.DummyExt {
 		tmpl.ExtraExtensions = append(tmpl.ExtraExtensions, pkix.Extension{Id: asn1.ObjectIdentifier{1, 2, 840, 113741, 1, 99}, Value: []byte{0x05, 0x00}})
@@ -207,6 +213,36 @@ func SgxTopElems(v SgxValues) [][]byte {
 
 // SgxExt returns the extension value for canonical order.
 func SgxExt(v SgxValues) []byte { return Seq(SgxTopElems(v)...) }
+
+// SgxExtOrdered writes the 18 TCB elements and the top-level elements in another order: every element is found by its OID, so the
+// values extracted are the same. order: "canon", "reversed", "interleaved" (odd components first).
+func SgxExtOrdered(v SgxValues, order string) []byte {
+	tcb := TcbElems(v)
+	top := SgxTopElems(v)
+	switch order {
+	case "canon":
+		return SgxExt(v)
+	case "reversed":
+		for i, j := 0, len(tcb)-1; i < j; i, j = i+1, j-1 {
+			tcb[i], tcb[j] = tcb[j], tcb[i]
+		}
+	case "interleaved":
+		var a, b [][]byte
+		for i, e := range tcb {
+			if i%2 == 0 {
+				a = append(a, e)
+			} else {
+				b = append(b, e)
+			}
+		}
+		tcb = append(b, a...)
+	default:
+		panic("bad sgx order " + order)
+	}
+	top[1] = ElemTCB(tcb)
+	top[0], top[3] = top[3], top[0]
+	return Seq(top...)
+}
 
 // ---------------------------------------------------------------------------------------
 // PKI
@@ -295,8 +331,13 @@ func (p *PKI) NewLeaf(cn string, serial *big.Int, sgx []byte, nb, na time.Time) 
 
 // NewLeafKey is NewLeaf for a given key.
 func (p *PKI) NewLeafKey(k *ecdsa.PrivateKey, cn string, serial *big.Int, sgx []byte, nb, na time.Time) Entity {
+	return p.NewLeafKeyCrit(k, cn, serial, sgx, nb, na, false)
+}
+
+// NewLeafKeyCrit: critical says whether the SGX extension is marked critical.
+func (p *PKI) NewLeafKeyCrit(k *ecdsa.PrivateKey, cn string, serial *big.Int, sgx []byte, nb, na time.Time, critical bool) Entity {
 	c, der := Issue(CertSpec{CN: cn, Serial: serial, NotBefore: nb, NotAfter: na, CRLDP: []string{"https://api.trustedservices.intel.com/sgx/certification/v4/pckcrl?ca=platform&encoding=der"},
-		SgxExt: sgx, Pub: &k.PublicKey, Parent: p.Inter.Cert, SignKey: p.Inter.Key})
+		SgxExt: sgx, SgxCritical: critical, Pub: &k.PublicKey, Parent: p.Inter.Cert, SignKey: p.Inter.Key})
 	return Entity{Key: k, Cert: c, DER: der}
 }
 
